@@ -286,6 +286,34 @@ func checkC14(w *World, r *Report) {
 				return ""
 			}
 			loops := ssaLoops(f)
+			if len(loops) == 0 {
+				// the scan of the if-features handed to slices.ContainsFunc: ignored iff the test — "this
+				// feature is not enabled" — holds for one of them
+				early := pcZ
+				valsOK := true
+				for _, row := range sym.retTable(f, 0) {
+					if k, isK := row.val.(*ssa.Const); isK && k.Value != nil {
+						valsOK = valsOK && k.Value.ExactString() == "true"
+						early = pcOrF(early, row.cond)
+						continue
+					}
+					call, isCall := row.val.(*ssa.Call)
+					if !isCall {
+						valsOK = false
+						continue
+					}
+					list, test := containsFuncCall(call)
+					src, isSrc := list.(*ssa.Call)
+					if test == nil || !isSrc || !src.Call.IsInvoke() || nm(src.Call.Method) != "ChildrenByType" {
+						valsOK = false
+						continue
+					}
+					loop = pcCompare(sym.ResultCond(test, nil), classify, func(env map[string]bool) bool { return !env["feat"] }) == ""
+					last = pcCompare(row.cond, classify, func(env map[string]bool) bool { return !env["ns"] }) == ""
+				}
+				ns = valsOK && pcCompare(early, classify, func(env map[string]bool) bool { return env["ns"] }) == ""
+				loop, last = loop && valsOK, last && valsOK
+			}
 			if len(loops) == 1 {
 				l := loops[0]
 				early, inLoop, after := pcZ, pcZ, pcZ
